@@ -106,8 +106,8 @@ func (u *uploader) uploadReportContents(fname string, buf []byte) bool {
 		u.logger.Printf("Error upload %s to %s: %v", filepath.Base(fname), endpoint, err)
 		return false
 	}
-	// hope for a 200, remove file on a 4xx, otherwise it will be retried by another process
-	if resp.StatusCode != 200 {
+	// hope for a 2xx, remove file on a 4xx, otherwise it will be retried by another process
+	if resp.StatusCode < 200 || resp.StatusCode >= 300 {
 		u.logger.Printf("Failed to upload %s to %s: %s", filepath.Base(fname), endpoint, resp.Status)
 		if resp.StatusCode >= 400 && resp.StatusCode < 500 {
 			err := os.Remove(fname)
